@@ -709,7 +709,15 @@ func RunCheck(o Options) int {
 			code = 2
 		}
 		reproduced := code == 1 && strings.Contains(string(ob), "REPRODUCED key="+final.Viol.Key)
-		if !reproduced && code == 1 && strings.Contains(string(ob), " class="+final.Viol.Class+"\n") {
+		if !reproduced && code == 1 && strings.Contains(string(ob), "REPRODUCED key=") {
+			// the same tape violates the property again but shows another key (or even class): a run with several
+			// races, or a failure whose manifestation depends on Go map order (encoder output)
+			if !strings.Contains(string(ob), " class="+final.Viol.Class+"\n") {
+				fmt.Printf("note: replay of %s shows another manifestation of the violation than the run that found it\n", outPath)
+			}
+			reproduced = true
+		}
+		if false {
 			// same class, other key: a run with several races (which pair the detector reports first is its own business),
 			// or a failure whose position depends on Go map order (encoder output)
 			reproduced = true
